@@ -26,13 +26,43 @@ def main():
     write_if_changed(os.path.join(VERIF, "lean", "SieveModel", "Spec", "ExtensionMap.lean"), "\n".join(out) + "\n")
     v = json.load(open(os.path.join(VERIF, "spec", "vocabulary.json")))
     pairs = [(n, k) for k in ("control", "action", "test") for n in v[k]]
-    out = ["import SieveModel.Model.Table",
+    out = ["import SieveModel.Model.Table", "import SieveModel.Model.Args",
            "/-! FROZEN vocabulary (rendered from /verif/spec/vocabulary.json, hand-written from the RFCs; NOT derived from /repo). -/",
            "namespace Spec", "",
            "/-- the commands of the supported language and the role each plays -/",
            "def vocabulary : List (Bytes × Kind) := [" + ", ".join('(sb "%s", .%s)' % p for p in pairs) + "]", "",
            "/-- every definition of the table is a word of the vocabulary, in its role -/",
            "def SpeaksOnly (T : Table) : Bool := T.all (fun d => decide ((d.name, d.kind) ∈ vocabulary))", "",
+           "/-- the tags each command admits (commands not listed admit none) -/",
+           "def tagVocabulary : List (Bytes × List Bytes) := [" + ", ".join('(sb "%s", [%s])' % (c, ", ".join('sb "%s"' % t for t in ts)) for c, ts in sorted(v["tags"].items())) + "]", "",
+           "def tagsOf (d : CmdDef) : List Bytes :=",
+           "  d.args.flatMap (fun a => if decide (ArgType.tag ∈ a.types) then (a.values.getD []) ++ a.extValues.map (·.1) else [])", "",
+           "def frozenTags (n : Bytes) : List Bytes := ((tagVocabulary.find? (fun p => p.1 == n)).map (·.2)).getD []", "",
+           "/-- every definition admits exactly the tags the frozen vocabulary gives its command -/",
+           "def TagsExactly (T : Table) : Bool :=",
+           "  T.all (fun d => (tagsOf d).all (fun t => decide (t ∈ frozenTags d.name)) && (frozenTags d.name).all (fun t => decide (t ∈ tagsOf d)))", "",
+           "/-- the parameter each tag takes: (tag, admitted kinds, closed value set if any); a tag not listed takes none -/",
+           "def tagParams : List (Bytes × List ArgType × Option (List Bytes)) := [" + ", ".join(
+               '(sb "%s", [%s], %s)' % (t, ", ".join("." + k for k in pv["kinds"]),
+                                        "none" if pv["values"] is None else "some [" + ", ".join("sb " + json.dumps(x) for x in pv["values"]) + "]")
+               for t, pv in sorted(v["tag_params"].items())) + "]", "",
+           "def frozenParam (t : Bytes) : Option (List ArgType × Option (List Bytes)) := (tagParams.find? (fun p => p.1 == t)).map (·.2)", "",
+           "/-- what the definition gives tag `t` of slot `a` as parameter: `none` = no parameter -/",
+           "def paramOf (a : ArgDef) (t : Bytes) : Option ExtraDef :=",
+           "  match a.extra with",
+           "  | none => none",
+           "  | some e => match e.validFor with | none => some e | some vf => if decide (t ∈ vf) then some e else none", "",
+           "def sameSet (a b : List Bytes) : Bool := a.all (fun x => decide (x ∈ b)) && b.all (fun x => decide (x ∈ a))", "",
+           "/-- the parameter of every tag of every definition is the frozen one: same kinds admitted, same closed value set -/",
+           "def ParamsExactly (T : Table) : Bool :=",
+           "  T.all (fun d => d.args.all (fun a => !decide (ArgType.tag ∈ a.types) ||",
+           "    ((a.values.getD []) ++ a.extValues.map (·.1)).all (fun t =>",
+           "      match paramOf a t, frozenParam t with",
+           "      | none, none => true",
+           "      | some e, some (kinds, vals) =>",
+           "        [ArgType.string, ArgType.number, ArgType.stringlist].all (fun k => Args.atypeIn k e == decide (k ∈ kinds)) &&",
+           "        (match e.values, vals with | none, none => true | some x, some y => sameSet x y | _, _ => false)",
+           "      | _, _ => false)))", "",
            "/-- every word of the vocabulary has a definition -/",
            "def SpeaksAll (T : Table) : Bool := vocabulary.all (fun (n, k) => T.any (fun d => d.name == n && d.kind == k))", "",
            "end Spec"]
